@@ -48,3 +48,37 @@ Theorem C11_canonical_are_members :
   forallb (fun c => existsb (fun m => String.eqb (fst m) c) saenger_members) saenger_canonical = true.
 Proof. vm_compute. reflexivity. Qed.
 Print Assumptions C11_canonical_are_members.
+
+(* ------------------------------------------------------------------ the lists find_pairs returns *)
+From Coq Require Import Arith Sorted.
+From RV Require Import Model.Geom Model.Annot Proofs.C03Main Proofs.C11Main.
+Close Scope string_scope.
+
+Theorem C11_pairs_no_repeat : forall rs order, NoDup (po_pairs (find_pairs rs order)).
+Proof. exact pairs_no_repeat. Qed.
+Print Assumptions C11_pairs_no_repeat.
+
+Theorem C11_pairs_two_residues : forall rs order i j lw sa, In (i, j, lw, sa) (po_pairs (find_pairs rs order)) -> i <> j.
+Proof. exact pairs_two_residues. Qed.
+Print Assumptions C11_pairs_two_residues.
+
+(* lower residue (model, chain, number, insertion code) first *)
+Theorem C11_pairs_lower_first : forall rs order i j lw sa, In (i, j, lw, sa) (po_pairs (find_pairs rs order)) ->
+    exists ri rj, nth_error rs i = Some ri /\ nth_error rs j = Some rj /\ res_ltb rj ri = false.
+Proof. exact pairs_lower_first. Qed.
+Print Assumptions C11_pairs_lower_first.
+
+Theorem C11_pairs_sorted : forall rs order, 2 <= length (candidates rs) ->
+    exists ls, po_pairs (find_pairs rs order) = map (pair_of rs) ls /\ LocallySorted (fun x y => pair_ltb rs y x = false) ls.
+Proof. exact pairs_sorted. Qed.
+Print Assumptions C11_pairs_sorted.
+
+(* base-phosphate / base-ribose contacts: two residues, at most one class per residue pair *)
+Theorem C11_contacts_two_residues : forall rs order d a k,
+    In (d, a, k) (po_bph (find_pairs rs order)) \/ In (d, a, k) (po_br (find_pairs rs order)) -> d <> a.
+Proof. exact contacts_two_residues. Qed.
+Print Assumptions C11_contacts_two_residues.
+
+Theorem C11_contacts_one_class : forall rs l, NoDup (map (fun t => (fst (fst t), snd (fst t))) (merge_and_clean rs l)).
+Proof. exact contacts_one_class. Qed.
+Print Assumptions C11_contacts_one_class.
